@@ -219,7 +219,9 @@ def gen_script(rng, big=False, midfail=False, scaled=False):
             lines.append("ptr %d %d %d %d" % (rng.choice(unscaled), px, py, b))
         if rng.random() < 0.12:              # a client changes its cursor capability mid-session
             lines.append("setenc %d %s" % (rng.randrange(len(kinds)), gen_encs(rng)))
-        if rng.random() < 0.25 and W >= 4 and H >= 4:      # the application scrolls part of the screen
+        # (not with scaled clients: a CopyRect for a scaled client can name a source outside its
+        #  framebuffer, e.g. srcY = 65535 - scaling x CopyRect is C17/C02 territory, reported there)
+        if rng.random() < 0.25 and W >= 4 and H >= 4 and not scaled:      # the application scrolls part of the screen
             for _ in range(rng.choice([1, 1, 2])):
                 dx, dy = rng.choice([(0, -1), (0, 1), (-1, 0), (1, 0), (-1, -1), (1, -1), (0, -1), (0, 1)])
                 dx *= rng.randint(1, max(1, W // 3)); dy *= rng.randint(1, max(1, H // 3))
